@@ -43,6 +43,9 @@
 struct vin_t {
     unsigned long long mlen; size_t gk; int m_mode; int verify_ret; unsigned char mold;
     unsigned char xb[64], hk[32], tag[16], mac[16], n[24], k[32], m0[32];
+#ifdef VBUFSZ
+    unsigned char ov[2 * 80 + VBUFSZ + 8];      /* arbitrary contents of the shared buffer of the overlap harnesses */
+#endif
 };
 struct vin_t nondet_vin(void);
 struct vin_t vin;
@@ -230,6 +233,7 @@ void hb_overlap_seal(void)
     VASSUME(vin.mlen <= VLMAX);
     static unsigned char big[2 * VOV + VBUFSZ + 8], mac[16]; unsigned char *m = big + om, *c = big + oc, orig_g = 0; size_t j; int r;
     unsigned long long mlen0 = vin.mlen > 32 ? 32 : vin.mlen, g = vin.mold; v_ref_first_len = (size_t) mlen0;
+    memcpy(big, vin.ov, sizeof big);                                        /* arbitrary buffer contents (a static array would be all zero) */
     for (j = 0; j < mlen0; j++) m[j] = vin.m0[j];
     if (vin.mlen > 32 && g < vin.mlen - 32) { orig_g = m[32 + g]; v_gidx = g; v_gidx_mm = 32 + g; }
     VCALL(r = FN(detached)(c, mac, m, vin.mlen, vin.n, vin.k));
@@ -253,6 +257,7 @@ void hb_overlap_open(void)
     VASSUME(vin.mlen <= VLMAX && vin.verify_ret == 0);
     static unsigned char big[2 * VOV + VBUFSZ + 8]; unsigned char *c = big + oc, *m = big + om, orig_g = 0; size_t j; int r;
     unsigned long long mlen0 = vin.mlen > 32 ? 32 : vin.mlen, g = vin.mold; v_ref_first_len = (size_t) mlen0;
+    memcpy(big, vin.ov, sizeof big);                                        /* arbitrary buffer contents (a static array would be all zero) */
     for (j = 0; j < mlen0; j++) c[j] = vin.m0[j];
     if (vin.mlen > 32 && g < vin.mlen - 32) { orig_g = c[32 + g]; v_gidx = g; v_gidx_mm = 32 + g; }
     VCALL(r = FN(open_detached)(m, c, vin.mac, vin.mlen, vin.n, vin.k));
